@@ -403,6 +403,9 @@ func hasDynamicOperand(node ast.Node) bool {
 		case "+", "/", "-", "*":
 			return hasDynamicOperand(n.Left) || hasDynamicOperand(n.Right)
 		}
+	case *ast.ConditionalNode:
+		// Either arm may be the operand (an arm like Any + 1 is typed int).
+		return hasDynamicOperand(n.Exp1) || hasDynamicOperand(n.Exp2)
 	}
 	return isInterface(node.Type())
 }
